@@ -219,7 +219,27 @@ func main() {
 		}
 		return
 	}
-	f()
+	// an entry that permutes map orders (verif.MapOrder) is repeated, because
+	// Go randomises every map range, until it fails - at most 300 times
+	run := func() (r any) {
+		defer func() { r = recover() }()
+		f()
+		return nil
+	}
+	r := run()
+	if verif.MapOrderUsed && verif.Kind() == "witness" {
+		// the native map order is random: a passing path of the symbolic run
+		// (one particular order) cannot be reproduced on demand
+		fmt.Println("REPLAY-WITNESS-UNORDERED")
+		os.Exit(0)
+	}
+	for i := 0; i < 300 && r == nil && len(verif.Failed) == 0 && verif.MapOrderUsed; i++ {
+		verif.Load(os.Args[1])
+		r = run()
+	}
+	if r != nil {
+		panic(r)
+	}
 }
 `)
 	ovj := map[string]map[string]string{"Replace": {}}
@@ -356,6 +376,9 @@ func finish(spec Spec, tier string, entries []EntrySpec, results []*entryResult,
 				if len(w.Observed) == 0 {
 					want = "REPLAY-PASS observed=[]"
 				}
+				if v == "REPLAY-WITNESS-UNORDERED" {
+					continue
+				}
 				if v == want {
 					witOK++
 					if witSample == nil {
@@ -481,6 +504,40 @@ func finish(spec Spec, tier string, entries []EntrySpec, results []*entryResult,
 		stubList = append(stubList, s)
 	}
 	sort.Strings(stubList)
+	// range-over-map sites of the listed packages (current tree) and whether
+	// a harness of this run executed the enclosing function
+	var mapSites []map[string]any
+	if len(spec.MapRange) > 0 {
+		sites, err := mapRangeSites(spec.MapRange, nil)
+		if err != nil {
+			inconcl = append(inconcl, "map-range scan failed: "+err.Error())
+		}
+		outside := map[string]string{}
+		for _, o := range spec.MapRangeOutside {
+			if i := strings.Index(o, "="); i > 0 {
+				outside[o[:i]] = o[i+1:]
+			}
+		}
+		for _, st := range sites {
+			status := "uncovered"
+			short := strings.TrimPrefix(st.Func, "*")
+			for f := range funcs {
+				if strings.Contains(f, st.Pkg) && strings.HasSuffix(strings.ReplaceAll(strings.ReplaceAll(f, "(*", ""), ")", ""), strings.TrimPrefix(st.Pkg, "")+"."+short) {
+					status = "covered by a harness of this run"
+				}
+			}
+			why := ""
+			if status == "uncovered" {
+				if w, ok := outside[st.Func]; ok {
+					status, why = "outside", w
+				}
+			}
+			mapSites = append(mapSites, map[string]any{"site": st.Pos, "func": st.Func, "status": status, "why": why})
+			if status == "uncovered" {
+				inconcl = append(inconcl, fmt.Sprintf("range over a map at %s (%s) is reached by no harness: its order sensitivity is undecided", st.Pos, st.Func))
+			}
+		}
+	}
 	wall := time.Since(t0).Seconds()
 	level := spec.Level
 	if level == "" {
@@ -523,6 +580,7 @@ func finish(spec Spec, tier string, entries []EntrySpec, results []*entryResult,
 			"entries":                       perEntry,
 			"exhaustive":                    len(inconcl) == 0,
 			"budget_s":                      ts.BudgetS,
+			"map_range_sites":               mapSites,
 		},
 	}
 	if !noEvidence {
